@@ -126,7 +126,7 @@ KN = ('MVoro.Proofs.Aux20', 'MVoro.KnnProofs')
 def kn(name, orig, doc): return (name, KN[0], KN[1], orig, doc)
 SP = ('MVoro.Proofs.Aux20', 'MVoro.SphereProofs')
 def sp(name, orig, doc): return (name, SP[0], SP[1], orig, doc)
-prop('C20', 'auxiliary structures return exact nearest neighbours and enclosing spheres', ['MVoro.Proofs.Aux20', 'MVoro.Proofs.MEBProofs'], [
+prop('C20', 'auxiliary structures return exact nearest neighbours and enclosing spheres', ['MVoro.Proofs.Aux20', 'MVoro.Proofs.MEBProofs', 'MVoro.Proofs.KnnCorrect'], [
   kn('cell_lower_bound', 'minDist2_lower_bound', 'T20.1 `min_distance_squared` of a grid cell is a lower bound of the squared distance to every point inside the cell (needs the cell extent loc .. loc+width componentwise)'),
   kn('closest_loc_in_cell', 'closestLoc_inBox', 'T20.1 `closest_loc` lies in the cell'),
   kn('bounded_heap_insert', 'insertK_spec', 'T20.1 one insertion into the bounded heap keeps "the k smallest distances seen so far, ascending"'),
@@ -134,6 +134,9 @@ prop('C20', 'auxiliary structures return exact nearest neighbours and enclosing 
   kn('skip_is_safe', 'skip_safe', 'T20.1 a cell whose lower bound exceeds the current k-th distance cannot change the heap'),
   kn('scan_with_skip_eq_without', 'scanCell_eq_noskip', 'T20.1 hence scanning with the skip test gives the same heap as scanning every particle of the cell'),
   kn('ring_termination_bound', 'ring_bound_3d', 'T20.1 every particle in a cell at ring distance > r is farther than dist_to_face + r * min width: the termination test is safe'),
+  ('ring_loop_returns_fold_over_all_rings', 'MVoro.Proofs.KnnCorrect', 'MVoro.KnnCorrect', 'knnLoop_eq_fold', 'T20.1 whatever the early exits do (skipped cells, termination test), the ring loop returns the plain fold of the bounded heap over ALL particles of ALL rings — for every grid whose cells contain their particles (hbox), whose rings end (hend) and whose rings are at least `dist_to_face + r * min width` away (hfar)'),
+  ('ring_loop_correct', 'MVoro.Proofs.KnnCorrect', 'MVoro.KnnCorrect', 'knnLoop_correct', 'T20.1 hence the result is sorted by distance, has min(k, number of candidates) entries, its distances are the k smallest, and every entry is a real candidate'),
+  ('ring_loop_eq_brute_force', 'MVoro.Proofs.KnnCorrect', 'MVoro.KnnCorrect', 'knnLoop_eq_spec', 'T20.1 if moreover the cells of the rings hold every particle exactly once, the distances returned are those of the brute-force specification `knnSpec` (k nearest OTHER particles, increasing)'),
   kn('pinned_placement_breaks_lower_bound', 'pinned_lower_bound_fails', 'T20.1 (negative) with `c_width.x` on all axes (the pinned tree) a particle lies outside the extent of its cell and the lower bound fails'),
   kn('pinned_placement_wrong_answer', 'pinned_knn_ne_spec', 'T20.1 (negative) concrete non-cubic box on which the pinned placement returns a wrong nearest neighbour; the componentwise placement returns the right one'),
   sp('certificate_implies_minimal', 'minimal_of_certificate_V3', 'T20.3 a ball containing all points whose centre is a convex combination of points on its boundary is the minimal enclosing ball'),
@@ -174,7 +177,7 @@ FP = ('MVoro.Proofs.FacesProofs', 'MVoro.FacesProofs')
 def fp(name, orig, doc): return (name, FP[0], FP[1], orig, doc)
 TS = ('MVoro.Proofs.Misc', 'MVoro.TypeStateProofs')
 def ts(name, orig, doc): return (name, TS[0], TS[1], orig, doc)
-prop('C15', 'extracted vertices and face polygons form a valid convex polytope', ['MVoro.Proofs.FacesProofs', 'MVoro.Proofs.Misc', 'MVoro.Proofs.GeomHelpers'], [
+prop('C15', 'extracted vertices and face polygons form a valid convex polytope', ['MVoro.Proofs.FacesProofs', 'MVoro.Proofs.Misc', 'MVoro.Proofs.GeomHelpers', 'MVoro.Proofs.Euler'], [
   gh('vertex_on_its_three_planes', 'intersectPlanes_on', 'T15.1 `Vertex::from_dual` = intersect_planes of the three listed planes lies on all three (exact arithmetic, det != 0)'),
   fp('ordering_is_a_permutation', 'sortFaceVertices_perm', 'T15.2a whenever `sort_face_vertices` succeeds its result is a permutation of the vertices collected for the plane: no vertex is lost or duplicated by the ordering'),
   fp('vertex_listed_per_occurrence', 'count_collected', 'T15.2b vertex i is collected under plane p exactly as often as p occurs in its dual triple'),
@@ -184,4 +187,8 @@ prop('C15', 'extracted vertices and face polygons form a valid convex polytope',
   ts('invariant_step', 'step_good', 'T15.4 one operation keeps the invariant "marker = WithFaces iff face data present"'),
   ts('with_faces_rejected_low_dim', 'withFaces_rejected_lowdim', 'T15.4 with_faces on a 1D/2D cell is the error state (panic), never a cell with nonsense faces'),
   ts('discard_then_with_faces_identity', 'discard_withFaces_id', 'T15.4 discard_faces followed by with_faces reproduces planes, vertices and (re-derived) faces'),
+  ('interior_planes_vanish', 'MVoro.Proofs.Euler', 'MVoro.Euler', 'interior_gone', 'T15.3 a plane of the removed region that is not on its boundary cycle has ALL its triples in the removed region, if the triples at that plane form a single umbrella (link connected): the face vanishes from the cell'),
+  ('plane_survives_iff_not_interior', 'MVoro.Proofs.Euler', 'MVoro.Euler', 'plane_survives_iff', 'T15.3 a face of the cell is still a face after the clip iff it is not interior to the removed region'),
+  ('new_plane_is_a_face', 'MVoro.Proofs.Euler', 'MVoro.Euler', 'new_plane_present', 'T15.3 the new plane is a face of the clipped cell'),
+  ('euler_preserved_by_clip', 'MVoro.Proofs.Euler', 'MVoro.Euler', 'euler_arith', 'T15.3 bookkeeping: V vertices, F faces, k removed vertices, b new vertices, m vanished faces with the disc relation 2m + b = k + 2 keep V + 4 = 2F, i.e. V - E + F = 2 with E = 3V/2'),
 ])
